@@ -265,12 +265,14 @@ impl Prop for C08 {
             before(cx, l, "R5:earlier-position-first", &format!("{} {}", u, x), &format!("{} {}", x, u), &q, &all);
         }
         // the winner must also survive the cut to the best `limit`: four copies of the loser, limit 2 and 1
-        let extremes = [(0usize, RATINGS[2]), (RATINGS[2], 0)];
+        // (a rating is a usize: the upper half of its range is part of "whatever the ratings")
+        let half = 1usize << (usize::BITS - 1);
+        let extremes = [(0usize, RATINGS[2]), (RATINGS[2], 0), (0, usize::MAX), (usize::MAX, 0), (half + 100, 200), (200, half + 100)];
         before_in(cx, l, "R5:earlier-position-first(limit 2, 4 copies of the other title)", &format!("{} {}", u, x), &format!("{} {}", x, u), &u, &extremes, 4, Some(2));
         before_in(cx, l, "R3:word-before-word-with-trailing-letters(limit 2, 4 copies of the other title)", &u, &format!("{}{}", u, ab.tails[0]), &u, &extremes, 4, Some(2));
-        before_in(cx, l, "R6:identical-titles-higher-rating-first(limit 1, 4 copies of the lower-rated title)", &u, &u, &u, &[(RATINGS[2], 0), (1, 0)], 4, Some(1));
+        before_in(cx, l, "R6:identical-titles-higher-rating-first(limit 1, 4 copies of the lower-rated title)", &u, &u, &u, &[(RATINGS[2], 0), (1, 0), (half, half - 1), (usize::MAX, 200)], 4, Some(1));
         // R6: identical titles: higher rating first; equal rating: 'u' before 'u x'
-        let higher: Vec<(usize, usize)> = vec![(1, 0), (RATINGS[2], 0), (RATINGS[2], 1), (RATINGS[2], RATINGS[2] - 1)];
+        let higher: Vec<(usize, usize)> = vec![(1, 0), (RATINGS[2], 0), (RATINGS[2], 1), (RATINGS[2], RATINGS[2] - 1), (half, half - 1), (half + 100, 200), (usize::MAX, 0), (usize::MAX, half)];
         for q in qforms(&u) {
             before(cx, l, "R6:identical-titles-higher-rating-first", &u, &u, &q, &higher);
             before(cx, l, "R6:identical-titles-higher-rating-first", &format!("{} {}", u, x), &format!("{} {}", u, x), &q, &higher);
@@ -279,7 +281,7 @@ impl Prop for C08 {
         }
     }
     fn rule(&self) -> String {
-        "sweep over two-record stores: u = every word of the listed lengths over a 3-letter alphabet (1 vowel, 2 consonants of the language's script), v / x from disjoint alphabets; every rating pair from {0, 1, 2^31-1}^2 and both insertion orders. R1 u vs every one-edit neighbour of u over the alphabet; R2 'u v' vs {u, v, 'u x', 'x v'}; R3 u vs u+tail for 4 tails, query = every prefix of u and the finished word; R4 'u v x' vs 'u x v'; R5 'u x' vs 'x u'; R6 identical titles / equal ratings; R7 every one-token function word f of the language (frozen list, re-validated through the public tokeniser) vs f+suffix for 6 suffixes, f alone / 'f x' / 'x f', lower-case and capitalised. Queries are typed unfinished and finished (trailing space). Non-trivial = both records returned and the loser has the strictly higher rating.".into()
+        "sweep over two-record stores: u = every word of the listed lengths over a 3-letter alphabet (1 vowel, 2 consonants of the language's script), v / x from disjoint alphabets; every rating pair from {0, 1, 2^31-1}^2 and both insertion orders (R3 / R5 / R6 also with ratings in the upper half of the usize range: 2^63, 2^63+100, usize::MAX against small ones). R1 u vs every one-edit neighbour of u over the alphabet; R2 'u v' vs {u, v, 'u x', 'x v'}; R3 u vs u+tail for 4 tails, query = every prefix of u and the finished word; R4 'u v x' vs 'u x v'; R5 'u x' vs 'x u'; R6 identical titles / equal ratings; R7 every one-token function word f of the language (frozen list, re-validated through the public tokeniser) vs f+suffix for 6 suffixes, f alone / 'f x' / 'x f', lower-case and capitalised. Queries are typed unfinished and finished (trailing space). Non-trivial = both records returned and the loser has the strictly higher rating.".into()
     }
     fn assumptions(&self) -> Vec<String> {
         vec![
